@@ -632,6 +632,10 @@ example : InGoFragmentD envD exFileD 0 exMainD ∧ InGoFragmentD envD exFileD 0 
   refine ⟨?_, ?_, ?_⟩ <;> (first | unfold InGoFragmentD | unfold InGoFragment) <;> decide +kernel
 example : ImplsOK envD exFileD (goodFnsD envD exFileD 0) exProgD := by unfold ImplsOK; decide +kernel
 example : (Sem.run 200 exProgD).status = "ok" ∧ (Sem.run 200 exProgD).out = "a P\n" := by decide +kernel
+/-- a numeric literal that becomes a trait object is stored under the conversion to its own type (`int32(42)`: as a bare
+    untyped constant Go would store an `int`, finding C01 / go-default-typing), a variable as it is -/
+example : (∃ lit, dynDataExpr {} (litI 42) = .call (.int 32 true) (.var "int32" (.func [.int 32 true] (.int 32 true))) [lit]) ∧
+    dynDataExpr {} (.var "x" t32) = .var (vn "x") (.int 32 true) := ⟨⟨_, rfl⟩, rfl⟩
 end Examples
 
 end Goml.GoCompileProps
